@@ -270,17 +270,18 @@ def rule_e(ctx):
     rep.ob('E', 'core.from_dataset::materialises-before-building', ok, fd,
            '' if ok else 'from_dataset must materialise the full iteration (list(...)) before building the snapshot')
     # keyed snapshot only if keys are unique
-    ok = False
-    for n in A.walk_local(fd):
-        if isinstance(n, ast.If):
-            t, _neg = A.strip_not(n.test)
+    def unique_cond(node):
+        """on the path to node: True if len(dict) == len(items) holds, False if it fails, None if not tested"""
+        res = None
+        for t0, truth in flow.guards_of(node, fd):
+            t, neg = A.strip_not(t0)
             if isinstance(t, ast.Compare) and len(t.ops) == 1 and isinstance(t.ops[0], (ast.Eq, ast.NotEq)) \
                     and all(isinstance(x, ast.Call) and A.dotted(x.func) == 'len' for x in [t.left, t.comparators[0]]):
-                equal_when_true = isinstance(t.ops[0], ast.Eq) != _neg
-                keyed = n.body if equal_when_true else n.orelse
-                unkeyed = n.orelse if equal_when_true else n.body
-                ok = any(isinstance(x, ast.Call) and A.dotted(x.func) == 'from_dict' for s in keyed for x in ast.walk(s)) and \
-                    any(isinstance(x, ast.Call) and A.dotted(x.func) == 'from_list' for s in unkeyed for x in ast.walk(s))
+                res = ((truth != neg) == isinstance(t.ops[0], ast.Eq))
+        return res
+    dict_calls = [x for x in A.walk_local(fd) if isinstance(x, ast.Call) and A.dotted(x.func) == 'from_dict']
+    ok = bool(dict_calls) and all(unique_cond(c) is True for c in dict_calls) and any(
+        isinstance(x, ast.Call) and A.dotted(x.func) == 'from_list' and unique_cond(x) is False for x in A.walk_local(fd))
     rep.ob('E', 'core.from_dataset::keyed-only-if-keys-unique', ok, fd, '')
 
 
